@@ -392,6 +392,27 @@ def make_batches(units, jobs):
     return batches
 
 
+MIRSYM_PROPS = {"C01", "C11"}
+MIRSYM_PRIMS = {"-true", "-false", "-print", "-print0", "-prune", "-quit", "-empty", "-readable"}
+
+
+def run_mirsym(prop, tier, logdir):
+    out = os.path.join(logdir, "mirsym.json")
+    log = os.path.join(logdir, "mirsym.log")
+    try:
+        with open(log, "w") as lf:
+            p = subprocess.run(["python3-vt", os.path.join(VERIF, "mirsym", "run.py"), prop, tier, out], stdout=lf, stderr=subprocess.STDOUT,
+                               timeout=TIER_CAPS[tier][0] * 2, env=dict(os.environ, FINDUTILS_REPO=REPO))
+    except subprocess.TimeoutExpired:
+        return {"error": "mirsym timed out", "log": log}
+    if p.returncode != 0 or not os.path.exists(out):
+        tail = open(log, errors="replace").read()[-400:]
+        return {"error": "mirsym failed: " + tail.replace("\n", " | "), "log": log}
+    r = json.load(open(out))
+    r["log"] = log
+    return r
+
+
 def run_check(prop, tier, only=None, jobs=None, seed=0):
     t_start = time.time()
     hs = discover()
@@ -520,8 +541,52 @@ def run_check(prop, tier, only=None, jobs=None, seed=0):
         else:
             inconclusive.append((h, detail))
 
+    # --- second engine: MIR-level symbolic execution (parser, builders, combinators end to end)
+    mirsym = None
+    if prop in MIRSYM_PROPS and (not only or "mirsym" in only):
+        mirsym = run_mirsym(prop, tier, logdir)
+        if mirsym.get("error"):
+            inconclusive.append(({"name": "mirsym", "full": "mirsym"}, mirsym["error"]))
+        else:
+            sent = sum(r["sentences_checked"] for r in mirsym["runs"])
+            paths = sum(r["paths"] for r in mirsym["runs"])
+            evaluations += sent
+            distinct += paths
+            queries.append({"harness": "mirsym::c01_parser (build_top_level_matcher + <Box<dyn Matcher>>::matches on symbolic token sequences)",
+                            "role": "main", "status": "verified" if not mirsym["violations"] and not mirsym["unsupported"] else "failed",
+                            "engine": mirsym["engine"], "bounds": "token sequences of length %s over the %d-word vocabulary %s; two symbolic leaf tests; one abstract file (a directory)" % (
+                                [r["tokens"] for r in mirsym["runs"]], len(mirsym["vocabulary"]), mirsym["vocabulary"]),
+                            "paths": paths, "inputs_covered": sent, "solver_calls": sum(r["solver_calls"] for r in mirsym["runs"]),
+                            "decision_s": mirsym["wall_s"], "mir_dump_s": mirsym["mir_dump_s"], "functions_executed": mirsym["functions_executed"],
+                            "detail": "", "log": mirsym.get("log")})
+            fn_all.update("mir:" + f for f in mirsym["functions_executed"])
+            for r in mirsym["runs"]:
+                samples.extend({"harness": "mirsym", "kind": "explored path (tokens pinned by the path condition) and its outcome", **x} for x in r.get("samples", [])[:2])
+            if mirsym["unsupported"]:
+                inconclusive.append(({"name": "mirsym", "full": "mirsym"}, "paths left the modelled fragment: %s" % mirsym["unsupported"]))
+            assumptions.add("mirsym: std/alloc calls are answered by the models in mirsym/models.py; Printer/Prune/-empty/-readable leaves are natives (events / symbolic booleans)")
+
     # --- witnesses for violations: concrete playback, then native replay
     vio_out = []
+    if mirsym and mirsym.get("violations"):
+        seen_shapes = {}
+        for v in mirsym["violations"]:
+            shape = " ".join("P" if t in MIRSYM_PRIMS else t for t in v["tokens"]) + " | " + v["what"].split("(")[0].strip()
+            seen_shapes.setdefault(shape, v)
+        for shape, v in list(seen_shapes.items())[:8]:
+            witness = {"property": prop, "harness": "mirsym", "harness_name": "mirsym", "tier": tier, "failing": v["what"], "tokens": v["tokens"],
+                       "leaves": v["leaves"], "shape": shape, "same_shape_inputs": sum(1 for x in mirsym["violations"] if " ".join("P" if t in MIRSYM_PRIMS else t for t in x["tokens"]) + " | " + x["what"].split("(")[0].strip() == shape)}
+            h = {"name": "mirsym", "full": "mirsym", "meta": {"replay": ["parser_tokens"]}}
+            reproduced, rdetail = native_replay(h, witness)
+            witness["native_replay"] = {"reproduced": reproduced, "detail": rdetail}
+            wid = hashlib.sha1(json.dumps(witness["tokens"]).encode()).hexdigest()[:10]
+            wpath = os.path.join(REPLAY_DIR, "%s-mirsym-%s.json" % (prop, wid))
+            json.dump(witness, open(wpath, "w"), indent=1)
+            if reproduced is False:
+                inconclusive.append((h, "mirsym witness %r did not reproduce natively (%s)" % (v["tokens"], rdetail)))
+            else:
+                vio_out.append((h, "%s: %s" % (" ".join(v["tokens"]), v["what"]), wpath, reproduced, rdetail))
+                samples.append({"harness": "mirsym", "kind": "violation witness", "tokens": v["tokens"], "failing": v["what"], "replay": wpath, "reproduced_natively": reproduced})
     for h, r, detail in violations:
         text, wall, rc, note, logpath = run_batch([h], tier, logdir, playback=True)
         _, res = parse_log(text)
@@ -581,7 +646,7 @@ def run_check(prop, tier, only=None, jobs=None, seed=0):
 
     for q in queries:
         if q["role"] == "main":
-            print("  %-11s %-55s %s" % (q["status"], q["harness"].split("verif_kani::")[-1],
+            print("  %-11s %-55s %s" % (q["status"], q["harness"].split("verif_kani::")[-1][:55],
                                         ("solver %.1fs" % q["decision_s"]) if q.get("decision_s") is not None else q.get("detail", "")))
     for k in known:
         print("KNOWN-FINDING: property=%s %s: %s" % (prop, k["id"], k["what"]))
